@@ -949,7 +949,219 @@ fn random_real(cfg: &Cfg, t: &mut Tally, rng: &mut Rng, i: usize) {
     }
 }
 
+// ---------------------------------------------------------------------------------------------
+// Fresh-process family: state that the library initialises lazily, once per process, from its FIRST
+// caller (a `OnceLock`, a `static` cache, a thread-local table) is invisible to any sweep inside one
+// process: whatever the sweep starts with pins the state for everything that follows. "For all
+// conformable shapes" does not depend on what the process multiplied before, so part of the product
+// workload runs in fresh processes whose first library call differs: the harness re-executes itself
+// (`std::env::current_exe()`) with the environment variable `VHARNESS_C05_FRESH=<r>x<c>:<api>`, which
+// only this module reads. Such a child runs nothing but `fresh_child`: first one product whose
+// transposed operand is stored r×c, through the named API; then products whose transposed operand has
+// the same element count in every other shape (all factorisations, vectors included), through every
+// API that transposes an operand; then a handful of random shapes. Integer data, equality oracle. The
+// child writes an ordinary result file; the parent files every child violation under
+// `fresh-process:first=<r>x<c>` and never turns a child that could not be run into a verdict.
+
+const FRESH_ENV: &str = "VHARNESS_C05_FRESH";
+/// the APIs that transpose exactly one operand (the both-transposed products take a branch of their own)
+const FRESH_APIS: [&str; 7] = ["matmul:TN", "matmul:NT", "xtx", "MM.t_dot", "MM.dot_t", "MV.t_dot", "VM.dot_t"];
+/// first shapes of the quick tier (r, c >= 2); later children draw r in 1..=16, c in 2..=16
+const FRESH_FIRST: [(usize, usize); 12] = [(4, 2), (2, 4), (3, 5), (50, 3), (6, 6), (2, 2), (3, 2), (12, 2), (2, 9), (5, 4), (8, 3), (10, 15)];
+
+/// One exact integer product whose transposed operand is stored r×c, through API `api`.
+fn transposed_product(t: &mut Tally, rng: &mut Rng, api: usize, r: usize, c: usize) {
+    let other = rng.usize(1, 6);
+    let form = rng.usize(0, 3);
+    let x = rng.ints(r * c, -50, 50);
+    match api {
+        0 => {
+            let b = rng.ints(r * other, -50, 50);
+            slice_case(t, &x, r, c, &b, r, other, true, false, &[], false);
+        }
+        1 => {
+            let a = rng.ints(other * c, -50, 50);
+            slice_case(t, &a, other, c, &x, r, c, false, true, &[], false);
+        }
+        2 => xtx_case(t, &x, r, c, false),
+        3 => {
+            let b = rng.ints(r * other, -50, 50);
+            dot_case(t, MM, 1, form, &x, r, c, &b, r, other, false);
+        }
+        4 => {
+            let a = rng.ints(other * c, -50, 50);
+            dot_case(t, MM, 2, form, &a, other, c, &x, r, c, false);
+        }
+        5 => {
+            let v = rng.ints(r, -50, 50);
+            dot_case(t, MV, 1, form, &x, r, c, &v, r, 1, false);
+        }
+        _ => {
+            let v = rng.ints(c, -50, 50);
+            dot_case(t, VM, 2, form, &v, 1, c, &x, r, c, false);
+        }
+    }
+}
+
+fn parse_fresh_spec(spec: &str) -> Option<(usize, usize, usize)> {
+    let (shape, api) = spec.split_once(':')?;
+    let (r, c) = shape.split_once('x')?;
+    let (r, c, api): (usize, usize, usize) = (r.parse().ok()?, c.parse().ok()?, api.parse().ok()?);
+    if r >= 1 && c >= 1 && r * c <= 4096 && api < FRESH_APIS.len() {
+        Some((r, c, api))
+    } else {
+        None
+    }
+}
+
+/// The whole run of a child process (see above). No library call precedes the first product.
+fn fresh_child(cfg: &Cfg, rep: &mut Report, spec: &str) {
+    let (r, c, api) = match parse_fresh_spec(spec) {
+        Some(p) => p,
+        None => {
+            rep.inconclusive(format!("{} = {:?} is not <rows>x<cols>:<api index>", FRESH_ENV, spec));
+            return;
+        }
+    };
+    rep.rule = format!("fresh-process sub-workload: first library call = {} with a transposed operand stored {}x{}; then every factorisation of {} elements (and the first shape again) as the transposed operand of each of {:?}; then 8 random shapes up to 12x12; integer entries in [-50,50], equality oracle", FRESH_APIS[api], r, c, r * c, FRESH_APIS);
+    par_cases(cfg, rep, 20, 1, |_i, rng, rep| {
+        let mut t = Tally::new(false);
+        transposed_product(&mut t, rng, api, r, c);
+        let count = r * c;
+        for r2 in (1..=count).filter(|d| count % d == 0) {
+            for api2 in 0..FRESH_APIS.len() {
+                transposed_product(&mut t, rng, api2, r2, count / r2);
+            }
+        }
+        for _ in 0..8 {
+            let (r2, c2, api2) = (rng.usize(1, 12), rng.usize(1, 12), rng.usize(0, FRESH_APIS.len() - 1));
+            transposed_product(&mut t, rng, api2, r2, c2);
+        }
+        t.flush(rep);
+    });
+}
+
+/// Spawn the children, read their result files back and re-report what they found.
+fn fresh_parent(cfg: &Cfg, rep: &mut Report) {
+    use std::process::{Command, Stdio};
+    let nchildren = if cfg.thorough() { 96 } else { FRESH_FIRST.len() };
+    rep.assume("fresh-process regimes: products with one transposed operand (matmul TN / NT, xtx, Matrix t_dot / dot_t, Matrix^T·Vector, Vector·Matrix^T) in freshly started processes whose first library call is such a product on an r x c operand (12 fixed shapes with r, c >= 2, then r drawn from 1..=16 and c from 2..=16), followed by every other factorisation of r·c elements and 8 random shapes; integer entries |a| <= 50, inner dimension <= 256 (every partial sum exact); run natively only (not under Miri, not in the lite sanitizer layers); a child that cannot be started or leaves no result file makes the run inconclusive");
+    let exe = match std::env::current_exe() {
+        Ok(p) => p,
+        Err(e) => {
+            rep.inconclusive(format!("fresh-process children: current_exe() failed: {}", e));
+            return;
+        }
+    };
+    let mut rng = Rng::new(crate::report::case_seed(cfg.seed, 21, 0));
+    let specs: Vec<(usize, usize, usize, u64)> = (0..nchildren)
+        .map(|idx| {
+            let (r, c) = if idx < FRESH_FIRST.len() { FRESH_FIRST[idx] } else { (rng.usize(1, 16), rng.usize(2, 16)) };
+            let api = (idx + cfg.seed as usize % FRESH_APIS.len()) % FRESH_APIS.len();
+            (r, c, api, rng.u64() >> 16)
+        })
+        .collect();
+    let mut idx0 = 0;
+    while idx0 < specs.len() {
+        let batch = &specs[idx0..(idx0 + cfg.threads.max(1)).min(specs.len())];
+        let mut running = Vec::new();
+        for (off, &(r, c, api, cseed)) in batch.iter().enumerate() {
+            let idx = idx0 + off;
+            let out = std::env::temp_dir().join(format!("vharness_c05_fresh_{}_{}_{}_{}.json", std::process::id(), cfg.seed, if cfg.thorough() { "t" } else { "q" }, idx));
+            let _ = std::fs::remove_file(&out);
+            let spec = format!("{}x{}:{}", r, c, api);
+            let child = Command::new(&exe)
+                .args(["C05", "--tier", "quick", "--seed", &cseed.to_string(), "--threads", "1", "--layer", "fresh-child", "--out"])
+                .arg(&out)
+                .env(FRESH_ENV, &spec)
+                .stdin(Stdio::null())
+                .stdout(Stdio::null())
+                .stderr(Stdio::null())
+                .spawn();
+            running.push((r, c, api, cseed, spec, out, child));
+        }
+        for (r, c, api, cseed, spec, out, child) in running {
+            let regime = format!("fresh-process:first={}x{}", r, c);
+            let status = match child {
+                Ok(mut ch) => ch.wait().map_err(|e| format!("wait failed: {}", e)),
+                Err(e) => Err(format!("spawn failed: {}", e)),
+            };
+            let text = std::fs::read_to_string(&out);
+            let _ = std::fs::remove_file(&out);
+            let js: Value = match (status, text) {
+                (Err(e), _) => {
+                    rep.inconclusive(format!("fresh-process child {} ({}): {}", spec, FRESH_APIS[api], e));
+                    continue;
+                }
+                (Ok(_), Err(e)) => {
+                    rep.inconclusive(format!("fresh-process child {} ({}): no result file: {}", spec, FRESH_APIS[api], e));
+                    continue;
+                }
+                (Ok(_), Ok(t)) => match serde_json::from_str(&t) {
+                    Ok(v) => v,
+                    Err(e) => {
+                        rep.inconclusive(format!("fresh-process child {} ({}): unreadable result file: {}", spec, FRESH_APIS[api], e));
+                        continue;
+                    }
+                },
+            };
+            let child_inc = js["inconclusive"].as_array().map(|a| a.len()).unwrap_or(1);
+            let child_ev = js["evaluations"].as_u64().unwrap_or(0);
+            if child_inc > 0 || child_ev == 0 {
+                rep.inconclusive(format!("fresh-process child {} ({}): inconclusive: {}", spec, FRESH_APIS[api], js["inconclusive"]));
+                continue;
+            }
+            rep.case(&regime);
+            rep.seen("fresh-process:children-judged", 1);
+            rep.seen(match api {
+                0 | 1 => "fresh-process:first-api=matmul",
+                2 => "fresh-process:first-api=xtx",
+                _ => "fresh-process:first-api=Dot",
+            }, 1);
+            rep.evaluations += child_ev;
+            rep.note_add("fresh_process.child_evaluations", child_ev as f64);
+            rep.distinct(Hasher::new().s("fresh").u(r as u64).u(c as u64).u(api as u64).finish(), true);
+            // assertions the child evaluated without a failure
+            if let Some(m) = js["assertions"].as_object() {
+                for (name, st) in m {
+                    if st["failed"].as_u64() == Some(0) && st["checked"].as_u64().unwrap_or(0) > 0 {
+                        rep.check(name, &regime, true, || json!(null));
+                    }
+                }
+            }
+            for v in js["violations"].as_array().cloned().unwrap_or_default() {
+                let assertion = v["assertion"].as_str().unwrap_or("C05.matmul.entries").to_string();
+                let count = v["count"].as_u64().unwrap_or(1).max(1);
+                rep.check(&assertion, &regime, false, || {
+                    json!({"fresh_process": {"first_library_call": FRESH_APIS[api], "first_transposed_operand_shape": [r, c], "env": format!("{}={}", FRESH_ENV, spec), "child_seed": cseed,
+                           "replay": format!("{}={} vharness C05 --tier quick --seed {} --threads 1 --out FILE", FRESH_ENV, spec, cseed)},
+                           "child_regime": v["regime"], "child_count": count, "first": v["first"]})
+                });
+                if count > 1 {
+                    if let Some(e) = rep.violations.get_mut(&format!("{}|{}", assertion, regime)) {
+                        e.count += count - 1;
+                    }
+                    let st = rep.assert_stat(&assertion);
+                    st.checked += count - 1;
+                    st.failed += count - 1;
+                }
+            }
+        }
+        idx0 += batch.len();
+    }
+    rep.require("fresh-process:children-judged", nchildren as u64);
+    for r in ["fresh-process:first-api=matmul", "fresh-process:first-api=xtx", "fresh-process:first-api=Dot"] {
+        rep.require(r, 1);
+    }
+}
+
 pub fn run(cfg: &Cfg, rep: &mut Report) {
+    if !cfg.miri() {
+        if let Ok(spec) = std::env::var(FRESH_ENV) {
+            fresh_child(cfg, rep, &spec);
+            return;
+        }
+    }
     let d = if cfg.miri() { 4 } else { 9 };
     let lean = cfg.miri();
     rep.rule = format!(
@@ -959,6 +1171,7 @@ pub fn run(cfg: &Cfg, rep: &mut Report) {
          then non-conformable slice products (inner dimensions 1..=5, la != lb) and random real-valued shapes up to 64 \
          (Miri smoke: 2 block sizes, 1 Dot method and 1 ownership form per point, rotating). \
          value-class rejection probes: the grid m,n in 1..=3, la != lb in 1..=5 x 4 flag combinations x 10 operand value classes (class in both / left / right operand) through matmul, matmul_blocked and one Dot method (operand kinds and ownership forms rotating), plus random shapes up to 24 (half of them with operands of equal length). \
+         fresh-process children (native full runs): 12 (quick) / 96 (thorough) re-executions of the harness whose first library call is a product with a transposed r x c operand (r, c >= 2), followed by every other factorisation of r*c elements through matmul TN / NT, xtx and the transposing Dot methods. \
          non-trivial = m*l*n > 1; distinct by (api, regime, shapes, flags, block size / ownership form, data kind)"
     );
     rep.assume("entries are finite; integer entries |a| <= 50 with inner dimension <= 64 so every partial sum is exact; real entries are N(0.25, 3^2) (no overflow/underflow in products)");
@@ -1060,6 +1273,10 @@ pub fn run(cfg: &Cfg, rep: &mut Report) {
             random_real(cfg, &mut t, rng, i);
             t.flush(rep);
         });
+        // ---- products in fresh processes (state keyed by the first caller of a process) ----------
+        if !cfg.lite && cfg.shard.1 <= 1 {
+            fresh_parent(cfg, rep);
+        }
     }
 
     // ---- coverage that the quantifier names -------------------------------------------------
